@@ -1,4 +1,4 @@
-SOURCE_COMMITS = ["d2e4e29 fix: wake all waiting accepts when a connection is released (unguarded repair, C18)", "1519567 fix: make validatePositive reject non-positive integers, check subnet key lengths (unguarded repair, C20)", "0f1a30e fix: serve zero TTL from the simple cache when no time is left (unguarded repair, C04)", "e93dce2 fix: unpack only the received bytes of a DoQ message (unguarded repair, C06)", "333808d fix: unpack only the received bytes of a plain upstream reply (unguarded repair, C06)"]
+SOURCE_COMMITS = ["d2e4e29 fix: wake all waiting accepts when a connection is released (unguarded repair, C18)", "1519567 fix: make validatePositive reject non-positive integers, check subnet key lengths (unguarded repair, C20)", "0f1a30e fix: serve zero TTL from the simple cache when no time is left (unguarded repair, C04)", "e93dce2 fix: unpack only the received bytes of a DoQ message (unguarded repair, C06)", "333808d fix: unpack only the received bytes of a plain upstream reply (unguarded repair, C06)", "2a834ae fix: do not proxy linked-IP paths that contain dot segments (unguarded repair, C19)"]
 
 claim("C09",
       "Bounded symbolic execution of the real RequestCounter/ring buffer against a sliding-window-log reference: for every interval and every non-decreasing timestamp sequence within the bound the SMT solver shows Add's verdict equals the reference. Bounded (events, limit), full-width values.",
@@ -24,3 +24,8 @@ claim("C06",
       "Self-composition by symbolic execution of the real receive paths (ServerQUIC.readQUICMsg, ServerDNS.acceptUDPMsg/acceptTCPMsg incl. getTCPBuffer, UpstreamPlain.readMsg for UDP and TCP) followed by the real miekg Unpack: the same symbolic message bytes are read once by a server whose pooled buffer holds arbitrary stale bytes and once by a fresh server; the solver must show that accept/reject and every decoded header/question field agree.",
       "Trusted: symgo, its sync.Pool model in LIFO mode (the mode that exposes stale buffers), the inline worker-pool stub, z3. Bounds: messages of 12..17 bytes (quick) with QDCOUNT<=2 and no other records, body alphabet {0..3, a-z}, 6 symbolic stale bytes, 64-byte DNS pool buffers; DoH body path not encoded (net/http); concurrent sharing of a buffer (data races) outside the claim.",
       "DESIGN.md 3 C06")
+
+claim("C19",
+      "Symbolic execution of the real shouldProxy/shouldProxyGet/shouldProxyPost over methods and paths with symbolic bytes against an RFC 3986 dot-segment reference normaliser (proxied => documented shape and normalised path still under /linkip/ or /ddns/), and of linkedIPProxy.ServeHTTP over all presence combinations of forged client-IP headers with symbolic values and a symbolic peer address (backend contacted iff documented shape; X-Connecting-Ip is exactly the peer address; CF-Connecting-IP, Forwarded, True-Client-IP, X-Real-IP removed; outbound Host/URL rewritten to the backend).",
+      "Trusted: symgo (net/http Header/URL code interpreted from SSA), z3; in the symbolic build ReverseProxy.ServeHTTP is replaced by Rewrite-then-RoundTrip (native replay uses the real ReverseProxy with a recording Transport). Bounds: path = prefix choice + <=7 (quick) / <=10 (thorough) symbolic bytes over {'/', '.', 'a', 's'} + suffix choice; header harness uses 6 concrete paths. Outside the claim: HTTP request-line parsing, percent-decoding, X-Forwarded-* removal by ReverseProxy.",
+      "DESIGN.md 3 C19")
